@@ -99,6 +99,11 @@ func (s *Sink) ID() string {
 	return s.meta.ID
 }
 
+// IndexTerm returns the Raft index and term of the snapshot being written.
+func (s *Sink) IndexTerm() (uint64, uint64) {
+	return s.meta.Index, s.meta.Term
+}
+
 // Write writes snapshot data to the sink.
 //
 // If the sink is handling a Full snapshot, this function writes the data to
